@@ -23,8 +23,11 @@
    RFC 3403 s4.1 (NAPTR): ORDER "specif[ies] the order in which the NAPTR records MUST be
      processed ... from lowest to highest"; PREFERENCE orders records "with equal Order
      values", lower first.
-   RFC 9460 s2.4.1/s3 (SVCB/HTTPS): "sorted in increasing SvcPriority"; equal priority
-     "SHOULD be shuffled".
+   RFC 9460 s2.4.1 (SVCB/HTTPS): SvcPriority is "The priority of this record (relative to
+     others, with lower values preferred)"; "When receiving an RRset containing multiple SVCB
+     records with the same SvcPriority value, clients SHOULD apply a random shuffle within a
+     priority level to the records before using them".
+   (RFC sentences written down without network access: wording may differ in detail.)
 
    A record is [p |-> <<a, b>>, w |-> weight]; p is compared lexicographically (a = NAPTR
    order, 0 for every other type; b = preference / priority).  kind:
